@@ -1,13 +1,19 @@
 PROP = dict(
-    drivers=['Font', 'Tdf', 'FontBox'],
-        gens=['unsafe_sites', 'xb', 'binfmt', 'icy'],
-        lake=['IcyVerif.Props.C17'],
+    drivers=['Font', 'Tdf', 'FontBox', 'FontDcs'],
+        gens=['unsafe_sites', 'xb', 'binfmt', 'icy', 'fontdcs'],
+        lake=['IcyVerif.Props.C17', 'IcyVerif.Props.C17Dcs', 'IcyVerif.Props.C17Psf', 'IcyVerif.Props.C17Tdf'],
         ns='IcyVerif.C17',
         theorems=['psf2_rt', 'raw_rt_exact', 'raw_rt_partial', 'raw_magic_counterexample', 'raw_psf2_witnesses', 'raw_512_reads_as_double_height', 'basic_rt',
                   'clip_rt', 'dcs_rt_exact', 'dcs_rt_partial', 'icy_font_chunk_rt',
-                  'font_block_position', 'xb_font_rt_partial', 'xb_named_default_violates', 'adf_font_rt', 'idf_font_rt',
+                  'font_block_position', 'xb_font_rt', 'xb_font_rt_nosauce_partial', 'xb_named_default_embedded', 'adf_font_rt', 'idf_font_rt',
                   'adf_idf_font_rt_nosauce_partial', 'icy_font_rt',
-                  'tdf_rt', 'tdf_bundle_rt', 'tdf_oversize_rejected'],
+                  'tdf_rt', 'tdf_bundle_rt', 'tdf_oversize_rejected',
+                  'dcs_source_constants', 'dcs_stream_exact', 'dcs_stream_rt', 'dcs_streams_back_to_back', 'dcs_unterminated_untouched',
+                  'dcs_interrupted_untouched', 'dcs_cut_then_complete_untouched',
+                  'psf1_load_exact', 'psf1_charsize_zero', 'psf1_to_psf2_rt', 'psf2_load_exact', 'psf2_flags_ignored',
+                  'psf2_headersize_rt', 'psf2_unicode_table_rejected', 'toPsf2_is_psf2File', 'psf1_unicode_table_read_as_glyphs',
+                  'psf2_wide_font_quirk',
+                  'tdf_rt_iff', 'wfTdf_iff', 'tdf_plain_rt', 'tdf_color_rt', 'has_char_table', 'tdf_presence_rt', 'tdf_outside_witnesses'],
         harness='c17',
         harness_timeout=1500,
         design='DESIGN.md §4 C17',
@@ -23,7 +29,18 @@ PROP = dict(
                   'of C05 xb_rt (one or two fonts, every palette/flag/picture of its domain), ADF/IDF font round trips re-proved from '
                   'C05 loader lemmas WITHOUT the clause about font names, IcyDraw FONT_n slots as a corollary of C07 doc_rt with the real '
                   'PSF2 codec. Well-formedness hypotheses are decidable; every excluded point is executed on the implementation. '
-                  'Differential correspondence (bytes hashed) ties writers and readers to the models on in-domain, boundary and damaged '
+                  'DCS FRAMING on the stream: Model/FontDcs.lean is ansi::Parser::print_char restricted to Default / ReadEscapeSequence / '
+                  'RecordDCS / RecordDCSEscape / ReadPossibleMacroInDCS with macro replay (depth, budget), execute_dcs (font branch, macro '
+                  'definitions text+hex, sixel hand-off) and the buffer font table; dcs_stream_exact / dcs_stream_rt are stated on the '
+                  'characters encode_as_ansi emits, for EVERY parser in state Default (any macros / left-over strings / fonts), behind any '
+                  'ESC-free text, several uploads back to back (induction over the list), and for unterminated / interrupted / swallowed '
+                  'sequences (a recorded string containing ESC is never accepted: base64 and usize parser lemmas). PSF1/PSF2: the '
+                  'loader\'s decision and result for every value of every header field (psf2_load_exact), flags ignored, header size as '
+                  'offset, unicode table rejected (PSF2) / read as glyphs (PSF1). TheDraw: tdf_rt_iff — the round trip holds IFF WfTdf '
+                  '(converse by analysing what the reader returns on what the writer wrote, without well-formedness), has_char for every '
+                  'character code incl. its off-by-one panic at 127. XBin: the embedding decision after fix 6fc5ca0 (is_default compares '
+                  'glyph bytes) — xb_font_rt is full strength. '
+        'Differential correspondence (bytes hashed) ties writers and readers to the models on in-domain, boundary and damaged '
                   'inputs, including whole container files (length, hash, font block offsets, loaded fonts) and IcyDraw chunk sequences '
                   '(own PNG/zTXt/inflate/base64 reader).',
         rule='cases: 256-glyph fonts of EVERY height 1..=32 (filler and random glyph bytes, all-0/all-1/byte-pattern rows), 512-glyph '
@@ -41,14 +58,28 @@ PROP = dict(
              'non-ASCII, maximal fonts, glyph data ending 1 below / at / 1 above the 16-bit limit, oversize fonts, excluded points (NUL '
              'in name, 13-byte name, spacing 41/-1, 0 byte in data, odd colour data, size > 255), bundles of 1..=34 fonts (also via a '
              'file and TheDrawFont::load), damaged TDF files incl. every header field in turn and glyph offsets at the block/file '
-             'boundary. distinct_nontrivial = distinct fonts / container cases',
+             'boundary; broken-clause fonts (one clause of WfTdf violated: must NOT come back), has_char for codes 0/32/33/../126/127/128/255; '
+             'PSF1 files with every mode bit 0..7/254/255 x exact / missing / surplus glyphs x unicode-table tails, PSF2 files with header '
+             'sizes 0/12/16/32/33/40/64/1000 x flags 0/1/0xFFFFFFFF x tails; XBin fonts NAMED like the default with other glyphs / other '
+             'heights / one bit flipped (first, last, random bit) / the default glyphs under another name; DCS STREAMS through the real '
+             'parser (hook verif_dcs_view): families seq (1..5 uploads + text), cut, swallow, foreign ESC x, macro-assembled payloads, 150 '
+             '(thorough 1800) random unit streams (font sequences whole / cut / damaged, ESC P, ESC \\, text and hex macro definitions, '
+             'invocations well- and malformed, RIS, sixel and other DCS, bare ESC), 108 boundary streams (every state x every critical '
+             'character); streams are cut where they would leave the modelled states (counted). distinct_nontrivial = distinct fonts / '
+             'container cases / streams',
         modelled='BitFont::{to_psf2_bytes, from_bytes, load_psf1, load_psf2, load_plain_font, convert_to_u8_data, calculate_checksum, '
                  'create_8, from_basic, encode_as_ansi, get_clipboard_data}, Glyph::from_clipbard_data, glyphs_from_u8_data, '
                  'Parser::load_custom_font (payload level, with executable base64 STANDARD and usize formatting/parsing), IcyDraw '
                  'read/write_utf8_encoded_string and the FONT_n chunk inside C07\'s document model; the font blocks of XBin/ADF/IDF '
                  'files inside C05\'s writer/loader models (position, embedding decision, 512-character mode); '
-                 'TheDrawFont::{as_tdf_bytes, add_font_data, create_font_bundle, from_tdf_bytes}',
-        not_modelled='DCS framing in the ANSI parser (ESC P … ESC \\; exercised by the oracle through the real parser); crates base64 / '
+                 'TheDrawFont::{as_tdf_bytes, add_font_data, create_font_bundle, from_tdf_bytes, has_char, get_font_height}; '
+                 'ansi::Parser::print_char in the states Default, ReadEscapeSequence, RecordDCS, RecordDCSEscape, ReadPossibleMacroInDCS; '
+                 'invoke_macro_by_id (depth 8, budget 65536); execute_dcs, parse_macro, parse_macro_sequence, parse_hex_macro_sequence '
+                 '(C01\'s definitions reused), load_custom_font on the recorded string; Buffer::set_font / get_font; BitFont::is_default '
+                 '(repaired) as the XBin embedding decision',
+        not_modelled='every parser state other than the five DCS-related ones (CSI and its sub-states, OSC, APS, ANSI music): one absorbing '
+                     'state `out`, entered only by ESC [ / ESC ] / ESC _ in ReadEscapeSequence — streams are cut there; caret, layers and '
+                     'terminal state (irrelevant for fonts); the sixel decode thread a `q` DCS spawns; crates base64 / '
                      'png / flate2 themselves (the model has its own base64; PNG container and zTXt compression are parameters of C07\'s '
                      'model, read back in the harness by an independent inflater); BitFont::load / TheDrawFont::load file I/O (oracle '
                      'only); TheDrawFont::render / FontGlyph::render / transform_outline (drawing, not an encoding); font name guessing '
@@ -60,5 +91,9 @@ PROP = dict(
                      'C05 (Model/BinFormats.lean) and C07 (Model/IcyDraw.lean) model the container writers/loaders (their own checks; '
                      're-tied here on every container case: file length+hash, block offsets, loaded fonts, chunk keywords, FONT_n payloads)',
                      'TheDrawFont::char_table is private: decoded glyph sizes/data are read through the add-only hook '
-                     'TheDrawFont::verif_glyph (cfg icy_engine_verif)'],
+                     'TheDrawFont::verif_glyph (cfg icy_engine_verif)',
+                     'ansi::Parser::state / parsed_numbers / macros are pub(crate): the stream correspondence reads them through the add-only hook '
+                     'Parser::verif_dcs_view (cfg icy_engine_verif); C01\'s Model/TermGeo.lean definitions takeNums / hexMacro / macroSet / macroGet / '
+                     'pushDigit are reused as they are (C01\'s own check ties them; re-tied here by every macro definition / invocation in a stream)',
+                     'TheDraw font names are Rust Strings: tdf_rt_iff carries validUtf8 name as a typing hypothesis'],
     )
